@@ -155,7 +155,19 @@ def _template_term(a, only_existing=False, signature_only=False):
 
 
 def T_(t):
+    # (M^T)^T = M
+    if z3.is_app(t) and t.decl().name() == "mat.T":
+        return t.children()[0]
     return fn("T", Mat, Mat)(t)
+
+
+def mm_(ta, tb):
+    """product term in right-nested normal form: (A B) C and A (B C) are the same term (re-associating a product is not a change of
+    the matrix over the reals; in floating point the results differ by rounding only)"""
+    if z3.is_app(ta) and ta.decl().name() == "mat.mm":
+        x, y = ta.children()
+        return mm_(x, mm_(y, tb))
+    return fn("mm", Mat, Mat, Mat)(ta, tb)
 
 
 def diag_(t):
@@ -197,7 +209,7 @@ def matmul(a: Arr, b: Arr):
     if not sym.int_eq_syntactic(ka, kb):
         c.oblige("safe", "shape", zi(ka) == zi(kb), {"what": "inner dimensions of a matrix product agree"})
     kind = sym.kind_join(a.kind, b.kind)
-    t = fn("mm", Mat, Mat, Mat)(ta, tb)
+    t = mm_(ta, tb)
     if a.ndim == 2 and b.ndim == 2:
         return mat_arr(t, (a.shape[0], b.shape[1]), kind)
     if a.ndim == 2 and b.ndim == 1:
@@ -305,4 +317,5 @@ def pinv(a: Arr):
 def solve(a: Arr, b: Arr):
     ta, tb = termify(a), termify(b)
     kind = sym.kind_join(a.kind, b.kind)
-    return mat_arr(fn("solve", Mat, Mat, Mat)(ta, tb), tuple(b.shape), kind)
+    # solve(A, B) = A^-1 B: the same matrix as inv(A) @ B (normal form of both spellings)
+    return mat_arr(mm_(fn("inv", Mat, Mat)(ta), tb), tuple(b.shape), kind)
